@@ -129,7 +129,7 @@ def jobs(tier, seed):
                             'opts': {'runouts': (None,), 'show_players': True}})
     for j in out:
         j.setdefault('state_cap', 200000)
-        j.setdefault('time_cap', 120)
+        j.setdefault('time_cap', 600)
     return out
 
 
